@@ -1,6 +1,6 @@
 (* Property C11 -- theorems only. *)
 From Coq Require Import Reals.
-From NV Require Import Base.RealExtra Gen.ModelFuncs Proofs.ScalingP.
+From NV Require Import Base.RealExtra Gen.ModelFuncs Proofs.ScalingP Proofs.PowerLawP.
 Local Open Scope R_scope.
 
 (* Objective equivalence: with abscissa and contact point multiplied by k, the
@@ -24,3 +24,32 @@ Proof. exact gcf_pyr. Qed.
 (* reported xmin/xmax and contact point are divided by k again *)
 Theorem C11_unscale : forall k x, k <> 0 -> k * x / k = x.
 Proof. exact unscale. Qed.
+
+(* the generic form of the clause "for models in which force is proportional
+   to E times depth to the power p the reported modulus is the k = 1 modulus
+   multiplied by k to the power -p": for EVERY prefactor c and EVERY real
+   exponent p, the model  c * E * depth^p + baseline  (baseline off the
+   indented part) has the same value at (E k^-p, k cp, k x) as at (E, cp, x) *)
+Theorem C11_power_law_equiv : forall c p E cp bl x k, 0 < k ->
+  power_law c p (E * Rpower k (- p)) (k * cp) bl (k * x) = power_law c p E cp bl x.
+Proof. exact power_law_gcf. Qed.
+
+(* ... and k^-p is the only factor that does this: a modulus that reproduces
+   the k = 1 force at a single indented point is E * k^-p *)
+Theorem C11_power_law_factor_unique : forall c p E E' cp bl x k,
+  0 < k -> c <> 0 -> 0 < cp - x ->
+  power_law c p E' (k * cp) bl (k * x) = power_law c p E cp bl x ->
+  E' = E * Rpower k (- p).
+Proof. exact power_law_gcf_unique. Qed.
+
+(* the three shipped power-law models (regenerated from the source) are
+   instances, with p = 3/2, 2, 2 *)
+Theorem C11_shipped_power_laws : forall E R alpha nu cp bl x,
+  m_hertz_para E R nu cp bl x = power_law (4 / 3 * sqrt R / (1 - nu ^ 2)) (3 / 2) E cp bl x /\
+  m_hertz_cone E alpha nu cp bl x =
+    power_law (2 * tan (alpha * PI / 180) / PI / (1 - nu ^ 2)) 2 E cp bl x /\
+  m_hertz_pyr3s E alpha nu cp bl x =
+    power_law (8887 / 10000 * tan (alpha * PI / 180) / (1 - nu ^ 2)) 2 E cp bl x.
+Proof.
+  intros. split; [apply para_is_power_law | split; [apply cone_is_power_law | apply pyr3s_is_power_law]].
+Qed.
